@@ -32,7 +32,9 @@ Proof. exact after_halt_reach. Qed.
 Print Assumptions C17_stop_is_prompt.
 
 (* the same against the control script: stream i receives a prefix of the chunks of the i-th play
-   command issued before the first close (expected_audio), all of them when it finishes un-halted *)
+   command issued before the first close (expected_audio: all chunks of the iterable for CPlay, the
+   chunks produced before the exception for an iterable that raises, CPlayBad), all of them when
+   the player finishes un-halted *)
 Theorem C17_delivery : forall wait script sched i p,
   get_player (exec (init wait script) sched) i = Some p ->
   exists a, nth_error (expected_audio script) i = Some a
@@ -142,6 +144,24 @@ Proof.
   split; vm_compute; reflexivity.
 Qed.
 Print Assumptions C17_nonvacuous_contention.
+
+(* an iterable that raises after one chunk (CPlayBad): the finally clause of run() still closes the
+   stream and unregisters the thread, so close returns and everything above holds *)
+Example C17_nonvacuous_crash :
+  let s := exec (init true [CPlayBad 2 [1; 2; 3; 4]%Z 1; CClose]) (round_robin 40) in
+  reachable s /\ close_returned s /\ stuck s /\ script_done s
+  /\ (exists p, get_player s 0 = Some p /\ ppc_ p = PDone /\ pcrash p = true /\ popen p = false
+                /\ pwritten p = [[1; 2]]%Z)
+  /\ sterminated s = 1.
+Proof.
+  cbv zeta. split; [eexists _, _, _; reflexivity|].
+  split; [split; vm_compute; reflexivity|].
+  split; [apply enabled_nil_stuck; vm_compute; reflexivity|].
+  split; [vm_compute; reflexivity|].
+  split; [eexists; split; [vm_compute; reflexivity|repeat split; vm_compute; reflexivity]|].
+  vm_compute; reflexivity.
+Qed.
+Print Assumptions C17_nonvacuous_crash.
 
 Example C17_nonvacuous_chunks : chunkify 2 [1; 2; 3]%Z = [[1; 2]; [3; 0]]%Z /\ pad_len 2 3 = 1.
 Proof. split; reflexivity. Qed.
